@@ -251,6 +251,8 @@ class World:
             'message': '%s after %r: %s' % (
                 clause, list(hist), '; '.join(p[1] for p in problems)[:800]),
             'replay': {'engine': 'SEQ', 'world': type(self).__name__,
+                       'module': type(self).__module__,
+                       'args': self.replay_args(),
                        'config': self.config(),
                        'history': [list(h) for h in hist],
                        'problems': [list(p) for p in problems],
@@ -264,6 +266,9 @@ class World:
         return {}
 
     def script(self, hist):
+        return None
+
+    def replay_args(self):
         return None
 
 
